@@ -998,6 +998,15 @@ def gt_select(ctx: Ctx) -> RuleResult:
     r.require(mi is not None, "minimal_induced_subgraph not found")
     np_ = mi.node.args.args[1].arg
     chk = [s for s in mi.node.body if isinstance(s, ast.If) and any(isinstance(b, ast.Raise) for b in s.body)]
+    if len(chk) == 1 and isinstance(chk[0].test, ast.Name):
+        # `unknown = [n for n in nodes if n not in self.nodes]` / `if unknown: raise`: truthiness of the list of absent targets
+        dfn = [n for n in mi.node.body if isinstance(n, (ast.Assign, ast.AnnAssign))
+               and dotted(n.targets[0] if isinstance(n, ast.Assign) else n.target) == chk[0].test.id]
+        if len(dfn) == 1 and isinstance(dfn[0].value, (ast.ListComp, ast.SetComp)) and dfn[0].value.generators[0].ifs \
+                and "not in" in norm_src(dfn[0].value.generators[0].ifs[0]) and dotted(dfn[0].value.generators[0].iter) == np_:
+            chk = [ast.copy_location(ast.If(test=ast.Call(func=ast.Name(id="any", ctx=ast.Load()), args=[dfn[0].value], keywords=[]),
+                                            body=chk[0].body, orelse=[]), chk[0])]
+            ast.fix_missing_locations(chk[0])
     okchk = len(chk) == 1 and ("not in" in norm_src(chk[0].test)) and "any(" in norm_src(chk[0].test)
     r.ob(okchk, {"absent target refused": norm_src(chk[0].test) if chk else None})
     if not chk:
@@ -1263,10 +1272,26 @@ def _graph_origin(ctx: Ctx, f: FuncInfo, a: ast.AST, depth: int = 0) -> str:
 
 def _filters_in_place(fn: FuncInfo, gname: str) -> bool:
     """fn removes from the graph named gname every node of THAT graph that is not a setup node."""
+    single: Dict[str, ast.AST] = {}
+    for n in iter_own_nodes(fn.node):
+        if isinstance(n, (ast.Assign, ast.AnnAssign)):
+            tg = n.targets[0] if isinstance(n, ast.Assign) else n.target
+            if isinstance(tg, ast.Name) and n.value is not None:
+                single[tg.id] = n.value if tg.id not in single else None  # type: ignore[assignment]
+    # names that hold the set of setup nodes: x = [frozen]set(<...>.setup_nodes) / x = <...>.setup_nodes
+    setup_sets = {"setup_nodes"}
+    for nm, v in single.items():
+        if v is None:
+            continue
+        core = v.args[0] if isinstance(v, ast.Call) and dotted(v.func) in ("set", "frozenset", "list", "tuple") and len(v.args) == 1 else v
+        if isinstance(core, ast.Attribute) and core.attr == "setup_nodes":
+            setup_sets.add(nm)
     for n in iter_own_nodes(fn.node):
         if isinstance(n, ast.Call) and isinstance(n.func, ast.Attribute) and n.func.attr == "remove_nodes_from" and n.args \
                 and dotted(n.func.value) == gname:
             a = n.args[0]
+            if isinstance(a, ast.Name) and single.get(a.id) is not None:
+                a = single[a.id]
             if isinstance(a, (ast.ListComp, ast.SetComp, ast.GeneratorExp)) and len(a.generators) == 1 and len(a.generators[0].ifs) == 1:
                 gen = a.generators[0]
                 it = gen.iter
@@ -1274,7 +1299,7 @@ def _filters_in_place(fn: FuncInfo, gname: str) -> bool:
                     (isinstance(it, ast.Call) and dotted(it.func) in ("list", "set", "tuple") and it.args and dotted(it.args[0]) in (gname, f"{gname}.nodes"))
                 flt = norm_src(gen.ifs[0])
                 var = dotted(gen.target)
-                if over_graph and flt.startswith(f"{var} not in ") and flt.endswith("setup_nodes") and dotted(a.elt) == var:
+                if over_graph and flt.startswith(f"{var} not in ") and flt.split(".")[-1].split(" ")[-1] in setup_sets and dotted(a.elt) == var:
                     return True
     return False
 
